@@ -231,6 +231,12 @@ def suffixGroups (tags : List Str) : Tab := (sortn tags).foldl groupStep []
 def compressGroups (tags : List Str) : List (List Elem) :=
   (suffixGroups tags).map fun g => compressInner g.2 g.1
 
+/-- behaviour after the proposed repair of F19-EMPTYSTEM (not used by the theorems): a name without
+any digit is listed as it is and never enters `comp` -/
+def compressGroupsFixed (tags : List Str) : List (List Elem) :=
+  ((sortn tags).filter fun t => (splitSuffix t).1.isEmpty).map (fun t => [⟨t, [⟨[], none⟩], []⟩]) ++
+    compressGroups (tags.filter fun t => !(splitSuffix t).1.isEmpty)
+
 def Run.render (r : Run) : Str :=
   match r.stop with
   | none => r.start
